@@ -63,6 +63,24 @@ func overwrite(t *sim.Tape, buf []byte, next []byte) string {
 	return "next-frame"
 }
 
+// window returns the bytes to decode as a WINDOW of a larger read buffer: the
+// slice handed to UnmarshalBinary has spare capacity behind it (as the slices a
+// program cuts out of its read buffer do), and it is the whole buffer that the
+// program overwrites later. A decoder that keeps even an EMPTY sub-slice of its
+// input keeps a handle on that capacity.
+func window(t *sim.Tape, body []byte) (win, whole []byte) {
+	extra := 0
+	if t.Bool(2, 3) {
+		extra = 1 + t.Int(64)
+	}
+	whole = make([]byte, len(body)+extra)
+	copy(whole, body)
+	for i := len(body); i < len(whole); i++ {
+		whole[i] = 0xEE
+	}
+	return whole[:len(body)], whole
+}
+
 type poolEntry struct {
 	p     mq.Packet
 	canon string
@@ -149,11 +167,11 @@ func runC14(c *sim.Ctx) *sim.Violation {
 	{
 		frame := newFrame()
 		first, body, _, _ := ref.SplitFrame(frame)
-		buf := append([]byte{}, body...)
+		win, buf := window(t, body)
 		p := freshFor(first, t)
 		typ := typeName(first >> 4)
 		var err error
-		if pi := sim.Guard(func() { err = p.UnmarshalBinary(buf) }); pi != nil {
+		if pi := sim.Guard(func() { err = p.UnmarshalBinary(win) }); pi != nil {
 			return sim.V("C14/"+typ+"/panic:"+pi.Site, "UnmarshalBinary(%s) panicked: %s", hexs(body), pi.Value)
 		}
 		if err == nil {
@@ -188,10 +206,10 @@ func runC14(c *sim.Ctx) *sim.Violation {
 			}
 			e.p, e.buf = o.P, stream
 		} else {
-			buf := append([]byte{}, body...)
+			win, buf := window(t, body)
 			p := freshFor(first, t)
 			var err error
-			if pi := sim.Guard(func() { err = p.UnmarshalBinary(buf) }); pi != nil || err != nil {
+			if pi := sim.Guard(func() { err = p.UnmarshalBinary(win) }); pi != nil || err != nil {
 				c.Count("skipped.pool-decode-error")
 				return nil
 			}
@@ -317,9 +335,9 @@ func runC14(c *sim.Ctx) *sim.Violation {
 				}
 				f, _ := ref.Encode(a)
 				_, body, _, _ := ref.SplitFrame(f)
-				buf := append([]byte{}, body...)
+				win, buf := window(t, body)
 				var uerr error
-				pi := sim.Guard(func() { uerr = e.p.UnmarshalBinary(buf) })
+				pi := sim.Guard(func() { uerr = e.p.UnmarshalBinary(win) })
 				touched = i
 				what = fmt.Sprintf("decode a %s frame into existing #%d", typeName(typ), i)
 				c.Count("probe.decode-into-a-packet-already-in-use")
